@@ -173,7 +173,8 @@ func programs() []*Program {
 		File: func() *FileSpec {
 			nm := msg("Nm", nil, fld("Plain", TString), fld("Tagged", TString).json("x"), fld("TagOmit", TInt64).json("y,omitempty"),
 				fld("TagDash", TString).json("-"), fld("TagEmpty", TBool).json(""), fld("lower_snake", TString),
-				fld("OvPath", TString), fld("OvKey", TString).json("ignored"), mfld("Sub", "NmSub"), fld("HTTPServer", TString), fld("A1B2", TInt32))
+				fld("OvPath", TString), fld("OvKey", TString).json("ignored"), mfld("Sub", "NmSub"), fld("HTTPServer", TString), fld("A1B2", TInt32),
+				fld("s3_bucket", TString), fld("ipv4_addr", TString), fld("x_y_z", TBool), fld("oauth2_ttl", TInt64).stddur())
 			sub := msg("NmSub", nil, fld("OvKey", TString), fld("Deep", TString))
 			return &FileSpec{Name: "p.proto", Msgs: []*M{sub, nm}}
 		},
